@@ -30,6 +30,7 @@ def load_all():
             spec.loader.exec_module(mod)
     from . import contract as _C
     _C.apply_bounded_registry()
+    _C.apply_discharges()
 
 
 def make_engine(timeout_ms=10000):
